@@ -235,6 +235,7 @@ func stagedFields(v ssa.Value, at ssa.Instruction) ([]emitField, bool) {
 		}
 		return !ws[i].opaque && ws[j].opaque
 	})
+	ws = mergeByteSplits(ws)
 	var out []emitField
 	pos := int64(0)
 	total := int64(-1)
@@ -265,6 +266,69 @@ func stagedFields(v ssa.Value, at ssa.Instruction) ([]emitField, bool) {
 		out = append(out, emitField{size: n.add(linConst(-pos)), what: "bytes", marker: -1})
 	}
 	return out, true
+}
+
+// byteOfWord: v is byte(x >> s) (or byte(x), s = 0; an `& 0xFF` mask is transparent).
+func byteOfWord(v ssa.Value) (x ssa.Value, shift int64, ok bool) {
+	cv, isCv := v.(*ssa.Convert)
+	if !isCv || !isByteBasic(cv.Type()) {
+		return nil, 0, false
+	}
+	y := cv.X
+	if bo, isBo := y.(*ssa.BinOp); isBo && bo.Op == token.AND {
+		if k, okk := constIntOr(bo.Y, -1); okk && k == 0xFF {
+			y = bo.X
+		}
+	}
+	if bo, isBo := y.(*ssa.BinOp); isBo && bo.Op == token.SHR {
+		if k, okk := constIntOr(bo.Y, -1); okk && k > 0 && k%8 == 0 {
+			return bo.X, k, true
+		}
+		return nil, 0, false
+	}
+	if _, isConst := y.(*ssa.Const); isConst {
+		return nil, 0, false
+	}
+	return y, 0, true
+}
+
+// mergeByteSplits: adjacent one-byte stores of byte(x>>8), byte(x) (or the four bytes of a 32-bit x,
+// most significant first) are one big-endian field holding x.
+func mergeByteSplits(ws []stagedWrite) []stagedWrite {
+	var out []stagedWrite
+	for i := 0; i < len(ws); i++ {
+		w := ws[i]
+		merged := false
+		if !w.opaque && w.size == 1 && w.field.val != nil {
+			if x, sh, ok := byteOfWord(w.field.val); ok && (sh == 8 || sh == 24) {
+				n := int(sh/8) + 1
+				if i+n <= len(ws) {
+					good := true
+					for j := 1; j < n; j++ {
+						nx := ws[i+j]
+						if nx.opaque || nx.size != 1 || nx.off != w.off+int64(j) || nx.field.val == nil {
+							good = false
+							break
+						}
+						x2, sh2, ok2 := byteOfWord(nx.field.val)
+						if !ok2 || x2 != x || sh2 != sh-int64(8*j) {
+							good = false
+							break
+						}
+					}
+					if good {
+						out = append(out, stagedWrite{off: w.off, size: int64(n), field: emitFieldOf(int64(n), x)})
+						i += n - 1
+						merged = true
+					}
+				}
+			}
+		}
+		if !merged {
+			out = append(out, w)
+		}
+	}
+	return out
 }
 
 // chainFields: the fields of a byte slice built by a chain of appends ending in v.
@@ -456,7 +520,13 @@ func expandWrite(fn *ssa.Function, w sinkWrite) []sinkWrite {
 		}
 	}
 	if !hasMarker {
-		return []sinkWrite{w}
+		// … except a small fixed array filled by one Put call (var l [2]byte; BE.PutUint16(l[:], n);
+		// buf.Write(l[:])): that is the field-by-field idiom with a detour, its length is a constant
+		base, _, okb := stagedBase(w.val)
+		_, isArr := base.(*ssa.Alloc)
+		if !(okb && isArr && len(fs) == 1 && fs[0].what == "value" && !fs[0].size.bad && len(fs[0].size.terms) == 0 && fs[0].size.k <= 8) {
+			return []sinkWrite{w}
+		}
 	}
 	var out []sinkWrite
 	for _, f := range fs {
@@ -685,4 +755,32 @@ func markerOnlyHelper(sc *ssa.Function, sink ssa.Value, args []ssa.Value) int64 
 	}
 	markerOnlyMemo[sc] = ws[0].marker
 	return ws[0].marker
+}
+
+// markerParamHelper: callee writes nothing but one marker to the sink it is handed and takes the
+// marker code as a parameter (writeMarker(buf, m)); returns the index of that argument.
+func markerParamHelper(sc *ssa.Function, sink ssa.Value, args []ssa.Value) (int, bool) {
+	if sc.Blocks == nil || !load.InScope(sc) || len(args) != len(sc.Params) || markerOnlyBusy[sc] {
+		return -1, false
+	}
+	markerOnlyBusy[sc] = true
+	defer delete(markerOnlyBusy, sc)
+	si := -1
+	for i, a := range args {
+		if unwrapIface(a) == sink && isSinkType(sc.Params[i].Type()) {
+			si = i
+		}
+	}
+	if si < 0 {
+		return -1, false
+	}
+	ws, ordered := sinkWritesOf(sc, sc.Params[si])
+	if !ordered || len(ws) != 1 || ws[0].what != "marker" || ws[0].marker != -2 {
+		return -1, false
+	}
+	pi := paramIndex(sc, stripConv(ws[0].val))
+	if pi < 0 || pi >= len(args) {
+		return -1, false
+	}
+	return pi, true
 }
